@@ -25,9 +25,9 @@ from harness.core import run_driver
 
 
 def logicle_display(x, T, M=None, W=0.0):
-    """display coordinate of data values under the documented logicle scale, computed independently of the library:
-    S(y) = T 10^-(M-W) (10^(y-W) - p^2 10^(-(y-W)/p) + p^2 - 1) for y >= W, odd about W, p from W = 2p log10(p)/(p+1);
-    inverted by bisection on [0, M] (values beyond the ends are clamped)"""
+    """display coordinate of data values under the logicle equation the library documents, computed independently of it:
+    x = T 10^-(M-W) (10^(y-W) - p^2 10^(-(y-W)/p) + p^2 - 1), p from W = 2p log10(p)/(p+1); inverted by bisection on
+    [0, M] (values beyond the ends are clamped)"""
     if M is None:
         M = max(4.5, 4.5 / np.log10(262144) * np.log10(T))
     if W == 0:
@@ -44,9 +44,7 @@ def logicle_display(x, T, M=None, W=0.0):
 
     def S(y):
         y = np.asarray(y, dtype=float)
-        u = np.abs(y - W)
-        v = T * 10 ** (-(M - W)) * (10 ** u - pp ** 2 * 10 ** (-u / pp) + pp ** 2 - 1)
-        return np.where(y >= W, v, -v)
+        return T * 10 ** (-(M - W)) * (10 ** (y - W) - pp ** 2 * 10 ** (-(y - W) / pp) + pp ** 2 - 1)
     x = np.asarray(x, dtype=float)
     lo = np.zeros_like(x)
     hi = np.full_like(x, float(M))
@@ -235,6 +233,15 @@ def run_scenario(sc):
             y = np.asarray(out.transform_fxn(probe, mef_channels[c]).view(np.ndarray))[:, c]
             truth = np.exp(ch['b']) * xs ** ch['m']
             e = float(np.max(np.abs(y - truth) / truth)) if np.all(np.isfinite(y)) else float('inf')
+            # the calibration belongs to the channel NAME: the same events with the columns stored in the opposite
+            # order (a sample laid out differently from the beads file) convert to the same values
+            try:
+                probe_r = probe[:, list(probe.channels)[::-1]]
+                y_r = np.asarray(out.transform_fxn(probe_r, mef_channels[c]).view(np.ndarray))[:, len(probe.channels) - 1 - c]
+                if y_r.tobytes() != y.tobytes():
+                    e = float('inf')
+            except Exception:  # noqa
+                e = float('inf')
             err_pm = max(err_pm, int(math.ceil(1000 * e)) if e < 1e3 else 10 ** 6)
         else:
             rfi_true_ok = False
